@@ -172,7 +172,9 @@ def _parse_default(version: int, data: memoryview) -> str:
     Default parser for user data sections that are not currently supported.
     """
 
-    return json.dumps(None)
+    # There is no parser for this sub-type: keep the data as a hex dump instead
+    # of silently dropping it.
+    return json.dumps({"Data": hexdump(data)})
 
 
 def parseUDToJson(subtype: int, version: int, data: memoryview) -> str:
